@@ -20,7 +20,7 @@ import (
 func init() {
 	simkit.Register(&simkit.Property{
 		ID: "C16", Level: "exploration", Bubble: true, Run: runC16,
-		Rule: "World D: one generated chain of 12-40 blocks (optionally with a fork whose abandoned side also carries registrations and logs) with 1-4 event-trigger registrations (definitions on topic/data predicates of a user contract) and matching / non-matching logs placed at every relative offset to registration and expiry (same block, next block, at expiry, after expiry). The chain is synced by the real MultiEventSyncer (both processors, real ethclient/abigen on simeth, pgsim) under 3 batchings of the same head sequence: block by block, Chooser-chosen jumps, and one Sync per phase with MaxRequestBlockRange in 1..N. Oracle per batching: the fired_triggers rows equal the reference computed from the canonical chain (first matching log in a block after the registration block and <= expiry; at most one row per trigger) - hence also equal across batchings. Non-trivial = a chain with a matching log within 3 blocks after a registration or at/after expiry; distinct = distinct trace hashes among those.",
+		Rule: "World D: one generated chain of 12-40 blocks (optionally with a fork whose abandoned side also carries registrations and logs) with 1-4 event-trigger registrations (definitions on topic/data predicates of a user contract) and matching / non-matching logs placed at every relative offset to registration and expiry (same block, next block, at expiry, after expiry). The chain is synced by the real MultiEventSyncer (both processors, real ethclient/abigen on simeth, pgsim) under 3 batchings of the same head sequence: block by block, Chooser-chosen jumps, and one Sync per phase with MaxRequestBlockRange in 1..N. Oracle per batching: the fired_triggers rows equal the reference computed from the canonical chain (first matching log in a block after the registration block and <= expiry; at most one row per trigger) - hence also equal across batchings. A trigger may be registered again with the very same identity (the registry contract does not refuse it): the later registration replaces the earlier expiry (ttl 0 included), read block by block. Faults: rpc.eth_error on any call of a third of the batchings (failed steps retried with the same head); rpc.eth_reorg_between_calls in the block-by-block batching (the node switches to the other branch before the k-th RPC of the step for the first block behind the fork point). Violations on identities registered more than once in runs with a fork carry the signature of the recorded finding (known_findings.json). Non-trivial = a chain with a matching log within 3 blocks after a registration or at/after expiry; distinct = distinct trace hashes among those.",
 		Assumptions: []string{"no RPC/DB faults are injected here (C15 covers them); the canonical chain is fixed while one Sync call runs"},
 		Real:        []string{"shutterservice.MultiEventSyncer", "EventTriggerRegisteredEventProcessor", "TriggerProcessor", "EventTriggerDefinition (decode, filter query, Match)", "ethclient + abigen", "sqlc/pgx"},
 		Stub:        []string{"Ethereum node (simeth)", "PostgreSQL (pgsim)"},
@@ -166,6 +166,7 @@ func runC16(r *simkit.Run) {
 		return b, active, blocks
 	}
 	var phases [][]*simeth.Block
+	var forkPoint *simeth.Block
 	forkAt := 0
 	if c.Chance(350, "with-fork") {
 		forkAt = c.Range(2, H-3, "fork-at")
@@ -178,6 +179,7 @@ func runC16(r *simkit.Run) {
 		tip, active, blocks1 := build(chain.Genesis, 1, forkAt, 0, nil)
 		_ = tip
 		fp := blocks1[len(blocks1)-1-depth]
+		forkPoint = fp
 		// active triggers at the fork point
 		var act2 []*c16Trigger
 		for _, t := range active {
@@ -277,6 +279,22 @@ func runC16(r *simkit.Run) {
 			r.Probe("batchings-with-rpc-faults")
 		}
 		desc := ""
+		// rpc.eth_reorg_between_calls: the node switches to the other branch in the middle of one sync
+		// step (before the k-th RPC of that step is answered). Only in the block-by-block batching,
+		// where a step covers one block and stores one position, and only at the first block behind
+		// the fork point: there a syncer that reads the header before the logs either stores
+		// consistent data or stores the abandoned hash and notices the reorg at the next head.
+		// (A step of several ranges cannot notice a switch between two of its ranges, and a switch
+		// while blocks of the abandoned branch are already stored is only noticed through the next
+		// head's parent hash; such situations are outside the statement and not injected.)
+		midStepAt, midStepK := uint64(0), 0
+		if bi == 0 && forkAt != 0 && c.Chance(400, "rpc.eth_reorg_between_calls") {
+			// at the first block behind the fork point: everything synced before is common to both
+			// branches, so whichever RPCs of the step see the new branch, the stored position either
+			// belongs to consistent data or is recognised as abandoned at the next head
+			midStepAt = forkPoint.Number + 1
+			midStepK = c.Range(1, 4, "mid-step-reorg-before-call")
+		}
 		for pi, blocks := range phases {
 			// heads to deliver in this phase
 			var heads []*simeth.Block
@@ -302,9 +320,30 @@ func runC16(r *simkit.Run) {
 				// precondition of the reorg handling: the first head above the synced block is synced+1
 				heads = blocks
 			}
+			switched := false
 			for _, hd := range heads {
+				if switched {
+					break // the node is on the other branch now: its heads follow in the next phase
+				}
 				chain.SetHead(hd)
+				if pi == 0 && midStepAt != 0 && hd.Number == midStepAt {
+					calls := 0
+					target := phases[1][len(phases[1])-1]
+					w.failNextEth = func(string) bool {
+						calls++
+						if calls == midStepK && !switched {
+							switched = true
+							chain.SetHead(target)
+							r.Fault("rpc.eth_reorg_between_calls")
+							r.Eventf("node switches to the other branch before RPC %d of the step for block %d", calls, hd.Number)
+						}
+						return false
+					}
+				}
 				err, done := w.call(func() error { return syncer.Sync(w.ctx, hd.Header) })
+				if w.failNextEth != nil && pi == 0 && midStepAt != 0 && hd.Number == midStepAt {
+					w.failNextEth = nil
+				}
 				// a failed step (injected RPC error) is retried with the same head, as the
 				// keyper does with the next block event; the outcome must not depend on it
 				for try := 0; done && err != nil && w.faults.ethErr > 0 && try < 10; try++ {
